@@ -32,12 +32,18 @@ def gen_reaper(rng, threaded, quick):
     timeout = rng.choice([1, 1, 2])
     TICK, T0 = NC.TICK, NC.T0
     D = timeout * TICK
+    tt = None
+    if rng.random() < 0.25:
+        tt = rng.choice([0, 0, 1, 3, 512])      # boundary values of the timeout: 0, one tick, fractions of a second
+        D = tt
     c = NC.gen_relay(rng, profile='timed', handler='http', n_events=rng.choice([3, 5, 8]))
     evs = [e for e in c['events'] if e['now'] - T0 < 10 ** 9]
     n_it = rng.choice([45, 85, 125]) if not threaded else rng.choice([12, 25, 40])
     case = dict(kind='reaper-threaded' if threaded else 'reaper-threadless', handler='http', max_send=c['max_send'],
                 timeout=timeout, t0=T0, web=c['web'], connect=c['connect'], sel=[], exchange=c['exchange'],
-                client_plan=c['client_plan'], up_plan=c['up_plan'], iters=[])
+                client_plan=c['client_plan'], up_plan=c['up_plan'], iters=[], tls=c.get('tls', False))
+    if tt is not None:
+        case['timeout_ticks'] = tt
     if threaded:
         case['sel'] = [rng.choice([1, 2, 100000]) for _ in range(60)]
     # iterations: ~26 ticks apart (the loop period), occasionally a long stall; events early on
@@ -46,7 +52,7 @@ def gen_reaper(rng, threaded, quick):
     sweep_iters = [i for i in range(n_it) if i and i % 39 == 0] if not threaded else list(range(n_it))
     last_ev_t = T0
     for i in range(n_it):
-        gap = rng.choice([1, 20, 26, 26, 26, 27, 40, 200]) if rng.random() < 0.93 else rng.choice([D // 2, D, D + 1])
+        gap = rng.choice([1, 20, 26, 26, 26, 27, 40, 200]) if rng.random() < 0.93 else rng.choice([max(D // 2, 1), max(D, 1), D + 1])
         t += gap
         it = dict(t=t, ev=None)
         if i in ev_at and evs:
@@ -133,7 +139,7 @@ def last_cio_timeline(case, out):
 
 def oracle(case, out):
     TICK = NC.TICK
-    D = case.get('timeout', 10) * TICK
+    D = NC.timeout_ticks(case)
     t0 = case.get('t0', NC.T0)
     tl = last_cio_timeline(case, out)
     # last_activity is the time of the last client recv()/send() call, after every call
